@@ -329,11 +329,26 @@ def hyp_routes(draw, tier):
             hid = hash("h1")
             case["ops"] = [["set_data", base + 1, None, hid, True, False]]
         return case
-    if not typed and draw(st.sampled_from([0, 0, 1])):
+    if not typed and draw(st.sampled_from([0, 1])):
         # directed: clones nested in each other whose un-nested (grand)children collide one or two levels up
         g, x = draw(st.sampled_from([("e", "f"), ("a", "b"), ("c", "d")]))
         inner = [g, [[x, []]]] if draw(st.booleans()) else [g, [[g, [[x, []]]]]]
-        variant = draw(st.sampled_from(["two-levels-up", "inner-sibling", "indirectly-nested"]))
+        variant = draw(st.sampled_from(["two-levels-up", "inner-sibling", "indirectly-nested", "inner-is-older", "inner-is-older", "look-alike-ids", "look-alike-ids"]))
+        if variant == "look-alike-ids":
+            # un-nesting puts a clone (explicit id 7) next to its twin, with a node whose id is the STRING "7" between
+            k = draw(st.sampled_from([7, 0, 42]))
+            case["spec"] = case["spec"] + [["zz", [["q3", [], {"id": k}], ["q4", [["q5", [], {"id": str(k)}], ["q3", [], {"id": k}]]]]]]
+            case["ops"] = []
+            return case
+        if variant == "inner-is-older":
+            g, x = "q1", "q2"  # (labels of their own: the pattern is always placeable)
+            # nested clones where the INNER one was registered first: it is created at the top level and then moved
+            # below a clone that was created later; the outer clone's parent already holds x
+            base = gen.spec_nodes(case["spec"])
+            if all(n[0] not in (g, x, "zz") for n in case["spec"]):
+                case["spec"] = case["spec"] + [[g, [[x, []]]], ["zz", [[g, []], [x, []]]]]
+                case["ops"] = [["move", base, base + 3, None]]
+            return case
         if variant == "two-levels-up":
             pat = [[g, [inner, ["a1", []]]], [x, []]]
         elif variant == "indirectly-nested":
